@@ -296,8 +296,18 @@ func (l *Lexer) NextToken() token.Token {
 		}
 
 	case rune(0):
-		tok.Literal = ""
-		tok.Type = token.EOF
+
+		// The end of our input is presented as a null character,
+		// but a null character inside the input is not the end of it.
+		if l.position >= len(l.characters) {
+			tok.Literal = ""
+			tok.Type = token.EOF
+		} else {
+			tok.Type = token.ILLEGAL
+			tok.Literal = "invalid null character in input"
+			tok.Column = l.column
+			tok.Line = l.line
+		}
 
 	default:
 		if isDigit(l.ch) {
